@@ -19,7 +19,7 @@ META = {
                  "correspondence batches (coordinates of all live objects and buffer-identity classes after every step)",
     "level_text": "Machine-checked Coq theorems about an executable heap model of mesh.py (copy, merge, from_arrays), "
                   "transform.py, rings.py, _prepare_vertices and Vec(x), for every operation history and over every "
-                  "(ordered) field of coordinates, after six fix: commits: a copy equals its source, uses fresh buffers and "
+                  "(ordered) field of coordinates, after seven fix: commits: a copy equals its source, uses fresh buffers and "
                   "stays isolated from it under any later history of writes; merge concatenates the vertices, shifts the "
                   "indices of input k by the running vertex count, takes the largest dimensionality and uses fresh, pairwise "
                   "distinct buffers even when one mesh is merged twice; 'no two vertex ids share a buffer' is an invariant of "
@@ -63,6 +63,13 @@ def ql(x):
 
 
 def vl(p):
+    """a vector of binary64 / dyadic values as (D n1 n2 n3 k) = (n1, n2, n3) / 2^k; other rationals as (V ...)"""
+    fs = [Fraction(c) for c in p]
+    d = max(f.denominator for f in fs)
+    if d & (d - 1) == 0:
+        k = d.bit_length() - 1
+        ns = [f.numerator * (d // f.denominator) for f in fs]
+        return "(D %s %d)" % (" ".join(("(%d)" % n) if n < 0 else str(n) for n in ns), k)
     return "(V %s %s %s)" % (qv(p[0]), qv(p[1]), qv(p[2]))
 
 
@@ -83,6 +90,8 @@ def encode_case(case, steps):
     (exception, zero-extent normalisation, non-finite coordinates)."""
     items = []
     prev = []
+    prevcls = None
+    infos = []
     for k, (op, st) in enumerate(zip(case["ops"], steps)):
         if not st["ok"]:
             break
@@ -114,7 +123,9 @@ def encode_case(case, steps):
             t = "(ONew %s %s %s %s %s)" % (coq_list(pat), zll(info["edges"]), zll(info["faces"]), zll(info["cells"]), zlit(info["kind"]))
         elif name == "copy":
             t = "(OCopy %s %s)" % (nat(op[1]), coq_bool(op[2]))
-            onew = "(Some (%s, %s, %s, %s))" % (zll(info["edges"]), zll(info["faces"]), zll(info["cells"]), zlit(info["kind"]))
+            si = infos[op[1]]
+            if [info[x] for x in ("edges", "faces", "cells", "kind")] != [si[x] for x in ("edges", "faces", "cells", "kind")]:
+                onew = "(Some (%s, %s, %s, %s))" % (zll(info["edges"]), zll(info["faces"]), zll(info["cells"]), zlit(info["kind"]))
         elif name == "merge":
             t = "(OMerge %s)" % coq_list([nat(m) for m in op[1]])
             onew = "(Some (%s, %s, %s, %s))" % (zll(info["edges"]), zll(info["faces"]), zll(info["cells"]), zlit(info["kind"]))
@@ -135,8 +146,6 @@ def encode_case(case, steps):
             elif name == "scale":
                 t = "(OScale %s %s %s)" % (nat(op[1]), ql(op[2]), orig(op[3]))
             elif name == "scale_xyz":
-                if op[5] is None and not pre:
-                    break
                 t = "(OScaleXYZ %s %s %s %s %s)" % (nat(op[1]), ql(op[2]), ql(op[3]), ql(op[4]), orig(op[5]))
             elif name in ("normalize", "fit"):
                 if OR._span0(pre):
@@ -159,7 +168,10 @@ def encode_case(case, steps):
             if i >= len(prev) or o["xyz"] != prev[i]["xyz"]:
                 changed.append("(%s, %s)" % (nat(i), coq_list([vl(p) for p in o["xyz"]])))
         cls = [c for o in cur for c in o["cls"]]
-        items.append("(%s, mkobs %s %s %s)" % (t, coq_list(changed), core.zlist(cls), onew))
+        items.append("(%s, mkobs %s %s %s)" % (t, coq_list(changed), "None" if cls == prevcls else "(Some %s)" % core.zlist(cls), onew))
+        prevcls = cls
+        if info is not None:
+            infos.append(info)
         prev = cur
     return items
 
@@ -217,7 +229,7 @@ def nontrivial(case):
 # ---------------------------------------------------------------------- the check
 def run(ctx):
     quick = ctx.tier == "quick"
-    n_cases = 800 if quick else 20000
+    n_cases = 600 if quick else 12000
     if os.environ.get("VERIF_C06_CASES"):      # development aid (mutation self-tests)
         n_cases = int(os.environ["VERIF_C06_CASES"])
     ctx.rule = ("histories of <= ~20 calls over 1-3 initial meshes (from_arrays over float/int caller arrays incl. two meshes "
